@@ -729,6 +729,7 @@ def main(argv):
     s.add_argument('--mode', default='search')
     s.add_argument('--count', type=int)
     s.add_argument('--workers', type=int)
+    s.add_argument('--oracles')
     a = ap.parse_args(argv)
     seed = int(os.environ.get('VERIF_SEED') or 1)
     try:
@@ -750,13 +751,19 @@ def main(argv):
             return selftest_det(a.sims or sorted(SIMS), a.seeds, 16, a.tier)
         if a.cmd == 'sim':
             b = Builder('dbg-' + a.sim, [a.sim])
-            merged, viols, crashes = run_search(b, a.sim, seed, a.tier, a.budget, mode=a.mode, count=a.count, nworkers=a.workers)
+            merged, viols, crashes = run_search(b, a.sim, seed, a.tier, a.budget, mode=a.mode, count=a.count, nworkers=a.workers, extra_env={'VERIF_ORACLES': a.oracles} if a.oracles else None)
             merged['shapes'] = len(merged['shapes'])
             merged.pop('runs')
             merged['samples'] = merged['samples'][:1]
             print(json.dumps(merged, indent=1)[:6000])
-            for v in viols[:5]:
+            seen = set()
+            for v in viols:
+                if v['sig'] in seen:
+                    continue
+                seen.add(v['sig'])
                 print('VIOL', v['sig'], '|', v.get('detail', '')[:600])
+                if os.environ.get('VERIF_KEEP'):
+                    print('   replay:', write_replay('DBG', a.sim, v['sig'], v.get('detail', ''), v['scenario'], v.get('trace'), seed))
             for c in crashes[:3]:
                 print('CRASH', c['last'], c['rc'], c['stderr'][-3000:])
             return 1 if viols or crashes else 0
